@@ -39,6 +39,7 @@
     invariant items == into_items(patvals), items.len() < usize::MAX, 0 <= k <= items.len(),
         verif_it1.obeys_prophetic_iter_laws(), verif_it1.decrease().is_some(), verif_it1.remaining() == items.skip(k),
         add_inv(nfa), reach_ok(nfa), nfa.match_kind == self.match_kind, nfa.len <= k, nfa.states@.len() <= u32::MAX as nat + 1,
+        fresh_links(nfa), nfa.outputs@.len() == 0,
         k > 0 ==> nfa.len > 0,
         seen_is(nfa, items, k), values_are(nfa, items, k),
         forall|i: int| 0 <= i < k ==> (#[trigger] pat_at(items, i)).len() > 0,
@@ -98,7 +99,11 @@
 //@}
 //@after 1 let q = match self.match_kind {{
     let ghost n_f = nfa;
-    proof { lemma_frame_keeps_trie(n_a, n_f); }
+    proof {
+        lemma_frame_keeps_trie(n_a, n_f);
+        // the output pass accepts both kinds of fail links
+        assert(fails_ok(n_f, true));
+    }
 //@}
 //@before 1 Ok(nfa){
     proof {
